@@ -1453,7 +1453,17 @@ func (e *taintEngine) collectSinks(fn *ssa.Function) {
 			if cmp, ok := x.Cond.(*ssa.BinOp); ok {
 				switch cmp.Op {
 				case token.LSS, token.LEQ, token.GTR, token.GEQ, token.NEQ:
-					for _, side := range []ssa.Value{cmp.X, cmp.Y} {
+					for i, side := range []ssa.Value{cmp.X, cmp.Y} {
+						if cmp.Op == token.NEQ {
+							// x != constant tests for a marker value; it is a bound only against a counter
+							other := cmp.Y
+							if i == 1 {
+								other = cmp.X
+							}
+							if _, isK := core.StripConv(other).(*ssa.Const); isK {
+								continue
+							}
+						}
 						if isIntegral(side.Type()) {
 							e.sink(fn, in, "loop-bound", core.Describe(cmp), side, func(f factBits) bool { return f&fEQ != 0 || f&fUB != 0 })
 						}
